@@ -601,16 +601,32 @@ func (c *client) Start() {
 		close(c.quit)
 	})
 	<-writeDone
-	c.drainRequests()
+	// done is closed before the final drain: a Send which queues its
+	// request after that sees done closed and drains by itself.
 	close(c.done)
+	c.drainRequests()
 }
 
 func (c *client) Send(req *simpleRequest) {
 	select {
 	case <-c.quit:
 		req.SetResponse(newError(backendExited))
+		return
 	default:
-		c.pendingReqs <- req
+	}
+
+	select {
+	case <-c.quit:
+		// don't wait on the full queue of a dead connection
+		req.SetResponse(newError(backendExited))
+	case c.pendingReqs <- req:
+		// The connection may have quit and drained its queues since the
+		// check above, nobody would answer the request then.
+		select {
+		case <-c.done:
+			c.drainRequests()
+		default:
+		}
 	}
 }
 
